@@ -668,6 +668,10 @@ func (w *World) ctxMoves(fn *ssa.Function) []*ctxMove {
 				if cp, ok := resolveNav(w, cc.Args[0]).(*ssa.Call); ok && cp.Call.IsInvoke() && w.navMethodClass(cp.Call.Method.Name()) == "copy" && w.isContextRegister(cp.Call.Value) && cp.Parent() == fn {
 					m.restore = true
 					m.copy = cp
+				} else if p, ok := resolveNav(w, cc.Args[0]).(*ssa.Parameter); ok && p.Parent() == fn && w.paramIsCleanContextCopy(p) {
+					// the saved context handed in by the caller (a helper that does
+					// one operand's work between the caller's save and its own restore)
+					m.restore = true
 				}
 			}
 			out = append(out, m)
@@ -716,7 +720,7 @@ func (w *World) restoreDiscipline(fn *ssa.Function) (bool, string, ssa.Instructi
 		}
 		demoted := false
 		for _, m := range moves {
-			if m.restore && dirtyAt[m.copy] {
+			if m.restore && m.copy != nil && dirtyAt[m.copy] {
 				m.restore = false
 				demoted = true
 			}
@@ -1064,4 +1068,42 @@ func zeroAVal(t types.Type) AVal {
 		return AVal{Kind: avNil}
 	}
 	return aUnknown(nil)
+}
+
+// paramIsCleanContextCopy: at every call of p's function (all static, in the
+// package) the argument for p is t.Current().Copy() taken in the caller, and the
+// caller does not itself move the context register (so the copy was taken with
+// the context where the caller found it).
+func (w *World) paramIsCleanContextCopy(p *ssa.Parameter) bool {
+	fn := p.Parent()
+	idx := paramIndex(fn, p)
+	n := w.CG.Nodes[fn]
+	if idx < 0 || n == nil || len(n.In) == 0 {
+		return false
+	}
+	for _, e := range n.In {
+		if e.Site == nil || e.Site.Common().StaticCallee() != fn {
+			return false
+		}
+		args := e.Site.Common().Args
+		if idx >= len(args) {
+			return false
+		}
+		caller := e.Site.Parent()
+		cp, ok := resolveNav(w, args[idx]).(*ssa.Call)
+		if !ok || !cp.Call.IsInvoke() || w.navMethodClass(cp.Call.Method.Name()) != "copy" || !w.isContextRegister(cp.Call.Value) || cp.Parent() != caller {
+			return false
+		}
+		for _, b := range caller.Blocks {
+			for _, in := range b.Instrs {
+				if ci, ok := in.(ssa.CallInstruction); ok {
+					cc := ci.Common()
+					if cc.IsInvoke() && w.isContextRegister(cc.Value) && w.navMethodClass(cc.Method.Name()) == "move" {
+						return false
+					}
+				}
+			}
+		}
+	}
+	return true
 }
